@@ -20,20 +20,26 @@ Decls == {"none", "nonlocal", "global"}
 
 VARIABLES ks,     \* ks[i]: kind of level i (1..D)
           ds,     \* ds[i+1]: names defined at level i (0..D)
+          gs,     \* gs[i]: level i (a function or class that is not the innermost level) starts with (global x)
           decl, dn
-vars == <<ks, ds, decl, dn>>
+vars == <<ks, ds, gs, decl, dn>>
 
-Init == /\ ks = <<>> /\ ds \in {<<d>> : d \in SUBSET Names}
+Init == /\ ks = <<>> /\ gs = <<>> /\ ds \in {<<d>> : d \in SUBSET Names}
         /\ decl \in Decls /\ dn \in SUBSET Names
         /\ (decl = "none") = (dn = {})
 Grow == /\ Len(ks) < MaxDepth
-        /\ \E k \in LevelKinds, d \in SUBSET Names : ks' = Append(ks, k) /\ ds' = Append(ds, d)
+        /\ \E k \in LevelKinds, d \in SUBSET Names, g \in BOOLEAN :
+              /\ (g => k # "let")
+              /\ ks' = Append(ks, k) /\ ds' = Append(ds, d) /\ gs' = Append(gs, g)
         /\ UNCHANGED <<decl, dn>>
 Spec == Init /\ [][Grow]_vars
 
 D == Len(ks)
 Kind(i) == IF i = 0 THEN "module" ELSE ks[i]
-Defs(i) == ds[i + 1]
+AllDefs(i) == ds[i + 1]
+\* a level that declared x global does not bind x: its (setv x ..) writes the module's variable
+G(i) == i \in 1..D /\ gs[i]
+Defs(i) == IF G(i) THEN AllDefs(i) \ {"x"} ELSE AllDefs(i)
 \* the Python scope a level belongs to: let forms live in the scope around them
 RECURSIVE PyScope(_)
 PyScope(i) == IF Kind(i) = "let" THEN PyScope(i - 1) ELSE i
@@ -51,6 +57,9 @@ NoBinding == 101   \* nothing to refer to: a syntax error (Hy's or Python's)
 RECURSIVE Outward(_, _)
 Outward(n, j) ==
   IF j < 0 THEN NoBinding
+  \* a function that declared the name global makes it the module's variable for the scopes nested in it
+  \* as well (Python's rule for free variables); a class's declaration concerns its own body only
+  ELSE IF n = "x" /\ G(j) /\ Kind(j) = "fn" THEN 0
   ELSE IF n \in Defs(j) /\ Kind(j) \in {"let", "fn", "module"} THEN j
   ELSE Outward(n, j - 1)
 
@@ -62,7 +71,7 @@ Target(n) ==
   LET lets == {j \in SameScopeLets(n) : j < D} IN
   IF n \notin dn THEN
        \* no declaration: the nearest let binding of this Python scope, else this scope's own variable
-       (IF SameScopeLets(n) # {} THEN MaxOf(SameScopeLets(n)) ELSE P)
+       (IF SameScopeLets(n) # {} THEN MaxOf(SameScopeLets(n)) ELSE IF n = "x" /\ G(P) THEN 0 ELSE P)
   \* nonlocal of a name bound by an enclosing let of the same function: just that variable
   ELSE IF decl = "nonlocal" /\ lets # {} THEN MaxOf(lets)
   ELSE IF UsedBefore(n) THEN Syntax
@@ -72,6 +81,12 @@ Target(n) ==
 \* ---- what the specification leaves open
 Specified ==
   /\ D >= 1
+  \* the innermost level carries the declaration under test, not an extra (global x)
+  /\ ~gs[D]
+  \* a name declared both global and nonlocal in one Python scope is not Python
+  /\ ~(G(P) /\ "x" \in dn)
+  \* intermediate global declarations are only tried when the module defines x itself
+  /\ ((\E i \in 1..D : gs[i]) => "x" \in AllDefs(0))
   \* nonlocal at module level is not Python; global at module level is a no-op we do not test
   /\ (decl # "none" => P # 0)
   \* declaring a name that the declaring let form itself binds
@@ -80,14 +95,19 @@ Specified ==
 Outcome == IF \E n \in Names : Target(n) \in {Syntax, NoBinding} THEN "syntax" ELSE "ok"
 Init0(i, n) == (IF n = "x" THEN 10 ELSE 20) + i
 Assigned(n) == IF n = "x" THEN 99 ELSE 98
+\* the module's x before the innermost assignment: the last (setv x ..) that wrote it, in program order
+ModuleWriters == {j \in 0..(D - 1) : "x" \in AllDefs(j) /\ (j = 0 \/ G(j))}
+ModuleInit(n) == IF n = "x" THEN (IF ModuleWriters = {} THEN 0 ELSE Init0(MaxOf(ModuleWriters), "x"))
+                 ELSE (IF n \in AllDefs(0) THEN Init0(0, n) ELSE 0)
+\* module-level value at the end: 0 means no such global
+GlobalAfter(n) == IF Target(n) = 0 THEN Assigned(n) ELSE ModuleInit(n)
 \* value of n seen at level i (which defines n) after everything ran
 \* (a global declaration holds for the whole Python scope from then on: a let of that scope that binds
 \* the name no longer hides the module's variable once the nested form has declared it global)
-Seen(i, n) == IF Target(n) = i THEN Assigned(n)
+Seen(i, n) == IF i = 0 \/ (n = "x" /\ G(i)) THEN GlobalAfter(n)
+              ELSE IF Target(n) = i THEN Assigned(n)
               ELSE IF n \in dn /\ decl = "global" /\ Kind(i) = "let" /\ PyScope(i) = P THEN Assigned(n)
               ELSE Init0(i, n)
-\* module-level value at the end: 0 means no such global
-GlobalAfter(n) == IF Target(n) = 0 THEN Assigned(n) ELSE IF n \in Defs(0) THEN Init0(0, n) ELSE 0
 
 \* ---- laws
 \* global always reaches the module
@@ -100,10 +120,13 @@ OneBindingChanges == Outcome = "ok" => \A n \in Names : Cardinality({i \in 0..D 
 \* a nonlocal name resolves to the nearest candidate: nothing between the target and the declaration
 \* binds the name in a let or a function
 Nearest == \A n \in dn : (decl = "nonlocal" /\ Target(n) \in 0..D) =>
-              \A j \in (Target(n) + 1)..(D - 1) : ~(n \in Defs(j) /\ Kind(j) \in {"let", "fn"})
+              \A j \in (Target(n) + 1)..(D - 1) :
+                 (n \in Defs(j) /\ Kind(j) \in {"let", "fn"}) =>
+                    \* ... unless a function nearer to the declaration made the name global
+                    (n = "x" /\ \E g \in (j + 1)..(D - 1) : G(g) /\ Kind(g) = "fn")
 
 Export == Specified =>
-  PrintT(<<"PROG", ToJson([ks |-> ks, ds |-> [i \in 1..Len(ds) |-> [n \in Names |-> n \in ds[i]]],
+  PrintT(<<"PROG", ToJson([ks |-> ks, gs |-> gs, ds |-> [i \in 1..Len(ds) |-> [n \in Names |-> n \in ds[i]]],
                            decl |-> decl, dn |-> [n \in Names |-> n \in dn],
                            outcome |-> Outcome,
                            target |-> [n \in Names |-> IF Target(n) \in 0..D THEN Target(n) ELSE 99],
